@@ -51,6 +51,17 @@ Theorem C06_status_agrees :
 Proof. exact status_agrees. Qed.
 Print Assumptions C06_status_agrees.
 
+(* ... and a backend failure is answered with a failure: if any backend call other than a
+   Close (whose error a deferred Close drops by design) returned an error, the response is the
+   JSON error document, never a success. *)
+Theorem C06_failures_answered :
+  forall linked digest_of subject_of enc redirect B (bstep : backend B) o b req,
+    let '(_, tr, r) := handle linked digest_of subject_of enc redirect B bstep o b req in
+    in_scope o tr -> forall resp, r = Ok resp ->
+    existsb call_failed tr = true -> exists w, p_json resp = Some (JErr w).
+Proof. exact failures_answered. Qed.
+Print Assumptions C06_failures_answered.
+
 (* the router's own errors: one of ten values, each answered 400, 404, 405 or 500 *)
 Theorem C06_parse_errors_status :
   Forall (fun pe =>
